@@ -189,7 +189,10 @@ def check(loop_phases, comp, rpat, bspat, prepared, user_offsets, res, wrong=Non
         res.violation(f"C12|borealis|crash|{type(e).__name__}", f"borealis compile raised {type(e).__name__}: {str(e)[:160]}", case)
         return False
     if wrong:
-        res.violation("C12|borealis|fixed-parameter-ignored", f"the source sets the layout's hard-coded argument {wrong} to a different value, yet the borealis compiler accepted the program (no CircuitError)", case)
+        if wrong == "s.value-in-a-gap":
+            res.violation("C12|borealis|accepts-out-of-range|value-in-a-gap", "one squeezing value of the source (0.9) lies between two allowed settings of the device (0.712 and 1.019) and between the smallest and largest entry of its array, yet the program was accepted", case)
+        else:
+            res.violation("C12|borealis|fixed-parameter-ignored", f"the source sets the layout's hard-coded argument {wrong} to a different value, yet the borealis compiler accepted the program (no CircuitError)", case)
         return True
     # layout conformance: command classes and modes of the compiled rolled circuit == layout order
     got = [(c.op.__class__.__name__, tuple(r.ind for r in c.reg)) for c in out.circuit]
